@@ -31,7 +31,7 @@ OPS = {"add": operator.add, "sub": operator.sub, "mul": operator.mul, "div": ope
 OPSYM = {"add": "+", "sub": "-", "mul": "*", "div": "/", "pow": "**"}
 
 # mechanism the specification prescribes (repaired) and the mechanism of the pinned classes (design canary)
-MECH = dict(MInitUseCache=True, MClearByOperand=True, MPickleSlots=True, MEqFlat=False, MReuseEqual=False, MCacheKeyTime=True)
+MECH = dict(MInitUseCache=True, MClearByOperand=True, MPickleSlots=True, MEqFlat=False, MReuseEqual=False, MCacheKeyBuffer=False, MCacheKeyTime=True)
 PINNED = dict(MECH, MInitUseCache=False, MClearByOperand=False, MPickleSlots=False)
 INVARIANTS = ["TypeOK", "EvalIsPointwise", "TimeDepIffSomeOperand", "EqIsStructural", "NestingTotal",
               "ClearCacheTotal", "PickleRoundTrip", "SolverAcceptsComposite"]
@@ -231,6 +231,62 @@ def call_event(tdgl, obj, who, form, t_units):
     return {"ev": "call", "who": who, "f": form, "t": t_units, "obs": obs, "fill": filled(obj, tdgl)}
 
 
+ARR_PTS = {"arr": (0, 1, 2), "arr2": (2, 0, 1), "arr3": (1, 1, 0)}      # ParamAlg.ArgPts (0-based)
+# (content, buffer) per call, at one time: the same memory re-delivered with other content, slices and strided views of
+# base buffers overwritten in place, and temporaries created for the call in a loop
+DELIVERIES = [("arr", "b1"), ("arr2", "b1"), ("arr3", "b1"), ("arr", "b1"),
+              ("arr", "v1"), ("arr2", "v1"), ("arr3", "s1"), ("arr", "s1"),
+              ("arr", "tmp"), ("arr2", "tmp"), ("arr3", "tmp"), ("arr", "tmp")]
+
+
+class Buffers:
+    """Memory the evaluation points are delivered in (three coordinates each)."""
+
+    def __init__(self):
+        self.b1 = [np.empty(3) for _ in range(3)]
+        self.base = [np.zeros(8) for _ in range(3)]
+        self.v1 = [b[1:4] for b in self.base]              # slices of a larger base buffer
+        self.base2 = [np.zeros(6) for _ in range(3)]
+        self.s1 = [b[::2] for b in self.base2]             # strided views
+
+    def deliver(self, a, b):
+        coords = [np.array([POINTS[i][c] for i in ARR_PTS[a]], dtype=float) for c in range(3)]
+        if b == "tmp":
+            return coords                                   # fresh arrays, dropped after the call
+        bufs = getattr(self, b)
+        for n, (buf, c) in enumerate(zip(bufs, coords)):
+            if n == 1 and len(set(c.tolist())) == 1:
+                buf.fill(c[0])                              # ys.fill(y0)
+            else:
+                buf[:] = c                                  # overwritten in place: same memory, other content
+        return bufs
+
+
+def deliver_form(tree):
+    k = kinds(tree)
+    if k & {"PT", "PTb"}:
+        return None if k & {"P2", "P2b"} else "F3T"
+    if k & {"P2", "P2b"}:
+        return None if k & {"P3", "P3b"} else "F2"
+    return "F3"
+
+
+def deliver_events(tdgl, obj, tree):
+    form = deliver_form(tree)
+    if form is None:
+        return []
+    bufs, out = Buffers(), []
+    t_units = 64 if form == "F3T" else 0
+    for a, b in DELIVERIES:
+        x, y, z = bufs.deliver(a, b)
+        args = (x, y) if form == "F2" else (x, y, z)
+        kw = {"t": t_units / Q} if form == "F3T" else {}
+        obs = observe(lambda: obj(*args, **kw))
+        out.append({"ev": "deliver", "f": form, "t": t_units, "a": a, "b": b, "obs": obs, "fill": filled(obj, tdgl)})
+        del x, y, z, args
+    return out
+
+
 def clear_event(tdgl, obj, who):
     try:
         obj._clear_cache()
@@ -283,6 +339,8 @@ def exercise(tdgl, item, tmp=None):
         ev.append(eq_event(obj, o2, other))
     for form, t in item.get("calls", ORIG_CALLS):
         ev.append(call_event(tdgl, obj, "orig", form, t))
+    if item.get("deliver", True):
+        ev += deliver_events(tdgl, obj, tree)
     if item.get("clear", True):
         ev.append(clear_event(tdgl, obj, "orig"))
     for method in item.get("pickles", ["pickle", "cloudpickle"]):
@@ -445,7 +503,7 @@ def validate_parallel(ctx, traces, name, nbatch=4, timeout=900):
 def clause_of(event, violated):
     if violated:
         return ",".join(violated)
-    return {"build": "NestingTotal/TimeDepIffSomeOperand", "eq": "EqIsStructural", "call": "EvalIsPointwise",
+    return {"build": "NestingTotal/TimeDepIffSomeOperand", "eq": "EqIsStructural", "call": "EvalIsPointwise", "deliver": "EvalIsPointwise (array argument delivered in re-used memory)",
             "clear": "ClearCacheTotal", "pickle": "PickleRoundTrip", "unpickle": "PickleRoundTrip",
             "solve": "SolverAcceptsComposite"}.get(event, "no-matching-action")
 
